@@ -3,6 +3,8 @@
 C04.a every SWAPk/DUPk emission is bounded 1 <= k <= 16 by dominating guards/asserts (interval analysis)
 C04.b failure containment in greedy_from_json / search_optimal / greedy_standalone
 C04.c the final-stack post-condition and operand-position asserts dominate the success return
+C04.d operand order deviates from the specification only for commutative operations
+C04.e boolean record fields are read by value; swapped operands need the flag
 """
 import ast
 
@@ -447,8 +449,17 @@ def rule_e(ctx, out):
                 for v2, c2, l2, e2 in pairs:
                     if c1 is not c2 and l1 == l2 and e1 == e2[::-1] and pairs.index((v1, c1, l1, e1)) < pairs.index((v2, c2, l2, e2)):
                         m += 1
-                        guarded = isinstance(v2, ast.BoolOp) and isinstance(v2.op, ast.And) and any(
-                            isinstance(x, ast.Subscript) and isinstance(x.slice, ast.Constant) and x.slice.value == "commutative" for x in v2.values)
+                        def _flag_value(x):
+                            if isinstance(x, ast.Subscript) and isinstance(x.slice, ast.Constant) and x.slice.value == "commutative":
+                                return True
+                            if isinstance(x, ast.Call) and isinstance(x.func, ast.Attribute) and x.func.attr == "get" and x.args and isinstance(x.args[0], ast.Constant) \
+                                    and x.args[0].value == "commutative" and (len(x.args) == 1 or (isinstance(x.args[1], ast.Constant) and not x.args[1].value)):
+                                return True
+                            if isinstance(x, ast.Compare) and len(x.ops) == 1 and isinstance(x.ops[0], (ast.Eq, ast.Is)) and isinstance(x.comparators[0], ast.Constant) \
+                                    and x.comparators[0].value is True:
+                                return _flag_value(x.left)
+                            return False
+                        guarded = isinstance(v2, ast.BoolOp) and isinstance(v2.op, ast.And) and any(_flag_value(x) for x in v2.values)
                         if guarded:
                             out.ok({"function": f.qual, "either_order_shortcut": short(b, 80), "swapped_order_requires": "record['commutative']"})
                         else:
